@@ -2,6 +2,7 @@
 # Mutation bench: a private copy of /verif + a scratch worktree of /repo, so seeded
 # changes can be tried without disturbing anybody building from /repo.
 #   tools/bench.sh sync                 (create or refresh the bench from /verif and /repo HEAD)
+#   tools/bench.sh sync-head            (the same from /verif's HEAD commit instead of its working tree)
 #   tools/bench.sh try <patch> <Cxx>... (apply patch to the bench repo, run the checks, undo)
 B=${BENCH:-/tmp/mut/bench}
 set -u
@@ -16,6 +17,19 @@ case "$1" in
   sed -i "s|/verif/.build/cargo-target|$B/verif/.build/cargo-target|" $B/verif/harness/.cargo/config.toml
   rm -f $B/verif/harness/Cargo.lock
   echo "bench at $B synced to $(git -C /repo rev-parse --short HEAD)"
+  ;;
+ sync-head)
+  # like sync, but /verif as committed (HEAD), not the working tree (owners may be in the middle of an edit)
+  mkdir -p $B/verif
+  if [ ! -d $B/repo ]; then git -C /repo worktree add -q --detach $B/repo HEAD; fi
+  git -C $B/repo checkout -q -- . ; git -C $B/repo clean -fdq -e target
+  git -C $B/repo checkout -q --detach $(git -C /repo rev-parse HEAD)
+  find $B/verif -mindepth 1 -maxdepth 1 ! -name .build -exec rm -rf {} +
+  git -C /verif archive HEAD | tar -x -C $B/verif
+  sed -i "s|path = \"/repo/|path = \"$B/repo/|g" $B/verif/harness/Cargo.toml
+  sed -i "s|/verif/.build/cargo-target|$B/verif/.build/cargo-target|" $B/verif/harness/.cargo/config.toml
+  rm -f $B/verif/harness/Cargo.lock
+  echo "bench at $B synced to /verif $(git -C /verif rev-parse --short HEAD), /repo $(git -C /repo rev-parse --short HEAD)"
   ;;
  try)
   patch=$(realpath $2); shift 2
